@@ -27,8 +27,17 @@ def run_sharded(ctx, name, cases_path, nshards=16):
     for o in outs:
         for l in o:
             mo[int(l.split(" ", 1)[0])] = l
-    io = {int(l.split(" ", 1)[0]): l for l in common.impl(["idct", cases_path], timeout=3000)}
+    io = {}
+    for l in common.impl(["idct", cases_path], timeout=3000):
+        toks = l.split()
+        crops = [t for t in toks if t.startswith("crop:")]
+        io[int(toks[0])] = " ".join(t for t in toks if not t.startswith("crop:"))
+        if crops:
+            CROPS.append((name, int(toks[0]), crops[0]))
     return mo, io
+
+
+CROPS = []          # (suite, block index, first differing sample) reported by the harness for blocks cut by a plane edge
 
 
 def canon(line):
@@ -75,6 +84,7 @@ def sparse_cases(ctx, thorough):
 
 
 def run(ctx):
+    del CROPS[:]
     thorough = ctx.tier == "thorough"
     broken = common.proof_step(ctx, THEOREMS, BRIDGES, allowed_axioms=common.REALS_AXIOMS + common.PRIMITIVE_AXIOMS)
     err = common.ensure_runners(ctx)
@@ -128,6 +138,23 @@ def run(ctx):
         broken.append("correspondence idct (sparse blocks): model and implementation differ on %d blocks" % ndiff)
     ctx.count("idct-block (all 4096 DC-only blocks, a lone coefficient at every position x 9 amplitudes x {no DC, DC}, random first-row / first-column / sparse blocks)",
               len(blocks), [("blk", i) for i in range(len(blocks))], sample={"coefficients": blocks[5000][:16]}, exhaustive=False)
+    # blocks cut by a plane edge: the visible samples must equal those of the whole block (reported by the harness)
+    for (suite, idx, c) in CROPS[:5]:
+        coeffs = None
+        try:
+            src = ctx.path("sparse.cases") if suite == "sparse" else ctx.path("annexa_%s.cases" % suite.replace("annexa", ""))
+            for l in open(src):
+                if l.split(" ", 1)[0] == str(idx):
+                    coeffs = [int(v) for v in l.split()[1:]]
+                    break
+        except Exception:
+            pass
+        ctx.violation({"kind": "idct-block", "class_key": "crop", "coefficients_row_major": coeffs,
+                       "spec": "a block cut by the right or bottom edge of the plane shows the same values as the whole block (peak error <= 1 on its visible samples)",
+                       "implementation": {"first_difference(w:h:x:y:got:whole-block value)": c}},
+                      "block %d of suite %s differs when the plane cuts it: %s" % (idx, suite, c))
+        found = True
+    ctx.cov["cropped_planes"] = {"plane sizes per block": "8x5 5x8 3x6 8x1 1x8 7x7", "differences": len(CROPS)}
     ctx.cov["rule"] = ("Annex A: blocks from the IEEE-1180 generator (randx seed as stated), double-precision forward DCT, rounding and clipping in numpy; "
                        "the implementation's idct_channel is run through the hook on each coefficient block over three predictions to recover the added value; "
                        "every block is non-trivial and distinct by construction")
@@ -145,6 +172,11 @@ def replay(ctx, path):
         p = ctx.path("replay.cases")
         open(p, "w").write("0 %s\n" % " ".join(str(v) for v in r["coefficients_row_major"]))
         out = common.impl(["idct", p])
+        crop = [t for t in out[0].split() if t.startswith("crop:")]
+        if r.get("class_key") == "crop" or crop:
+            print("cropped planes:", crop or "no difference")
+            print("REPRODUCED" if crop else "NOT-REPRODUCED")
+            return 1 if crop else 0
         outp = ctx.path("replay.out")
         open(outp, "w").write(out[0] + "\n")
         res = json.loads(vt(["peak", p, outp]))
